@@ -116,12 +116,6 @@ def opStr : FsOp → String
   | .close f => s!"close {nameStr f}"
   | .rename s d => s!"rename {nameStr s} {nameStr d}"
 
-/-- all remaining operations of a fork child -/
-def childRun (s : Ser) : Ser :=
-  match s.child with
-  | some ⟨ops, _⟩ => ops.foldl (fun acc _ => acc.childStep) s
-  | none => s
-
 /-- one protocol event → model events (`childRun` expands to as many `childStep`s as the child has left) -/
 def parseEv (l : Link) (j : Json) : List Ev :=
   match getStr j "e" with
@@ -190,10 +184,7 @@ def runCrash (j : Json) : Json :=
        [Json.str (pidStr (s0.serialize 0 (parsePieces j "p") (getBool j "fail")).1.pid)])
     else
       let chunks := (getArr j "chunks").toList.map parseChunk
-      let r := chunks.foldl (fun (acc : Ser × List FsOp × List Json) c =>
-        let (s', b) := acc.1.setTransmissionData c
-        (s', acc.2.1 ++ acc.1.acceptOps c, acc.2.2 ++ [Json.bool b])) (s0, [], [])
-      (r.2.1, r.2.2)
+      (s0.feedOps chunks, (s0.feed chunks).2.map Json.bool)
   let images := (List.range (ops.length + 1)).map (fun k => jFS (fs.crashAt ops k))
   Json.mkObj [("ops", Json.arr (ops.map (fun o => Json.str (opStr o))).toArray),
     ("images", Json.arr images.toArray), ("rets", Json.arr rets.toArray)]
